@@ -103,7 +103,7 @@ func Class(err error) string {
 		return "write quorum"
 	case strings.Contains(s, "read quorum"):
 		return "read quorum"
-	case strings.Contains(s, "cluster quorum"), strings.Contains(s, "enough peers"):
+	case strings.Contains(s, "cluster quorum"), strings.Contains(s, "enough peers"), strings.Contains(s, "CLUSTERQUORUM"):
 		return "cluster quorum"
 	case strings.Contains(s, "no such lock"):
 		return "no such lock"
